@@ -14,6 +14,8 @@ fn box_shape(rng: &mut Rng) -> (DVec3, DVec3, &'static str) {
         5 => (DVec3::new(0., 0., 0.), DVec3::new(1., 0.5, 2.), "tall"),
         6 => (DVec3::new(1., 1., 1.), DVec3::new(2., 3., 0.6), "thinz"),
         7 => (DVec3::new(0., 0., 0.), DVec3::new(1., 3., 1.), "anisocell"),
+        // coordinates much larger than the spacing (distances must be formed from differences, not from |a|^2 + |b|^2 - 2 a.b)
+        4 => (DVec3::new(3e6, -2e6, 5e6), DVec3::new(1., 2., 1.5), "farbox"),
         _ => (DVec3::new(3., -7., 11.), DVec3::new(8., 1., 2.5), "flat"),
     }
 }
